@@ -23,7 +23,7 @@ one canonical form of constructs that maintainers routinely rewrite into each ot
   S7  T i = a; while (c(i)) { body; ++i; } (no continue, i dead afterwards) -> for (T i = a; c(i); ++i) body
   S4  a void function body / a loop body that ends with `if (a && b) { X }` -> `if (!a) return / continue; if (!b) ...; X` (guard-clause form)
   S8  if (a > b) a = b; -> a = min(a, b); if (a < b) a = b; -> a = max(a, b)   (integers)
-  E11 x * 2^K -> x << K, unsigned x / 2^K -> x >> K, unsigned x % 2^K -> x & (2^K - 1) ;  E12 2 * i -> i * 2 ;  E17 (x & A) | (x & B) -> x & (A | B) ;  E15 const integral local initialised with a literal / named constant reads as that value ;  E14 !(a && b) -> !a || !b ;  E13 X.empty() -> X.size() == 0 (std containers) ;  S13b if (c) f |= v; -> f |= c ? v : 0 ;  S16 T x; x = e; -> T x = e ;  S17 T x = a; x |= b; -> T x = a | b ;  S15 pointer cursor over [B, B+N) -> index loop over B ;  S10 if (c) x = a; else x = b; -> x = c ? a : b ;  S13 if (c) b = true; -> b |= c ; if (c) b = false; -> b &= !c  (bool b)
+  E11 x * 2^K -> x << K, unsigned x / 2^K -> x >> K, unsigned x % 2^K -> x & (2^K - 1) ;  E12 2 * i -> i * 2 ;  E17 (x & A) | (x & B) -> x & (A | B) ;  E15 const integral local initialised with a literal / named constant reads as that value ;  E14 !(a && b) -> !a || !b ;  E13 X.empty() -> X.size() == 0 (std containers) ;  S13b if (c) f |= v; -> f |= c ? v : 0 ;  S16 T x; x = e; -> T x = e ;  S18 while (c1) { if (c2) break; B } -> while (c1 && !c2) { B } ;  S17 T x = a; x |= b; -> T x = a | b ;  S15 pointer cursor over [B, B+N) -> index loop over B ;  S10 if (c) x = a; else x = b; -> x = c ? a : b ;  S13 if (c) b = true; -> b |= c ; if (c) b = false; -> b &= !c  (bool b)
   S14 `T x = a; if (c) x = b;` -> `T x = c ? b : a;`   (a a plain read)
   S12 `if (ok) return; throw X;` at the end of a void function -> `if (!ok) throw X;`
   S5  `while (c) body` and `for (; c; ) body` are both exported as For nodes with empty init / increment
@@ -974,6 +974,18 @@ def norm_stmt(s):
             s.setdefault("inc", None)
         if LIGHT[0] and s.get("k") == "For" and s.get("was") == "While" and s.get("init") is None and s.get("inc") is None:
             s["k"] = "While"    # the pre-pass renamed it only to try S7 / S7a
+        if s.get("k") == "For" and not LIGHT[0] and s.get("c") is not None:
+            # S18: while (c1) { if (c2) break; B }  ->  while (c1 && !c2) { B }   (same order of evaluation, same exits)
+            body = _stmts(s.get("b"))
+            if body and isinstance(body[0], dict) and body[0].get("k") == "If" and body[0].get("e") is None and _bare_exit(body[0].get("t"), "Break"):
+                rest = body[1:]
+                brk = []
+                for r0 in rest:
+                    _walk(r0, lambda x: brk.append(x) if x.get("k") in ("Break", "Continue") else None)
+                if not brk:
+                    s = dict(s)
+                    s["c"] = norm_expr({"k": "Bin", "op": "&&", "l": s["c"], "r": norm_expr(_neg(body[0]["c"])), "t": "bool", "sz": 1, "loc": (s["c"] or {}).get("loc"), "synth": True})
+                    s["b"] = {"k": "Block", "s": rest, "loc": (s.get("b") or {}).get("loc")}
         if s.get("k") == "For":
             s = _index_loop_to_range(s)
         return [s]
